@@ -77,6 +77,27 @@ pub fn search(seed: u64, n: u64) {
         stats.count("corpus.f19_regression");
         check_set(&mut stats, &mut rng_f19, &vec![q.clone()], "f19_regression", 200, 200);
     }
+    // closed paths one of whose cubic edges crosses ITSELF (a curl): the crossing is found by find_self_intersection_point, not by the
+    // edge-against-edge collision; a stream of its own, so that the random inputs below stay what they were
+    let mut rng_curl = Rng(seed ^ 0xC0271);
+    for _ in 0..(6 + n / 40) {
+        let c = Coord2(rng_curl.r(35.0, 65.0), rng_curl.r(35.0, 65.0));
+        let r = rng_curl.r(15.0, 30.0);
+        let a0 = rng_curl.r(0.0, TAU);
+        let v: Vec<Coord2> = (0..4).map(|k| { let a = a0 + (k as f64 + rng_curl.r(-0.2, 0.2)) * TAU / 4.0; c + Coord2(a.cos(), a.sin()) * r }).collect();
+        let line = |p: Coord2, q: Coord2| (p + (q - p) * 0.33, p + (q - p) * 0.66, q);
+        // the edge v0 -> v1 curls: its control points are pushed past each other along the edge and out of the body
+        let (p, q) = (v[0], v[1]);
+        let d = q - p;
+        let out = { let m = (p + q) * 0.5 - c; let l = (m.0 * m.0 + m.1 * m.1).sqrt(); Coord2(m.0 / l, m.1 / l) };
+        let k = rng_curl.r(0.9, 1.6);
+        let curl = (p + d * k + out * (r * rng_curl.r(0.3, 0.8)), q - d * k + out * (r * rng_curl.r(0.3, 0.8)), q);
+        let path: P = (p, vec![curl, line(v[1], v[2]), line(v[2], v[3]), line(v[3], v[0])]);
+        let path = redirect(&mut rng_curl, &path);
+        stats.case(&format!("curl {:?}", path), true);
+        stats.count("input.curl_edge_crosses_itself");
+        check_set(&mut stats, &mut rng_curl, &vec![path], "curl_edge_crosses_itself", 200, 200);
+    }
     for (k, m) in STARS {
         for rot in [0.0, 0.1, TAU / 4.0] {
             for variant in 0..2 {
